@@ -210,6 +210,7 @@ class World(object):
         self.dsw = seams.install()
         self.tables_seen = {}      # (k, seed) -> digest of the first table seen in this run
         self.pairs = {}            # pair name -> reference arc-set model
+        self.owned = set()         # names of objects the library handed back (their owner may edit them in place)
         self.prev_fn = None
 
 
@@ -312,6 +313,8 @@ def execute(op, world, ctx):
         return {"out": {"kind": "sim"}, "res": None}
     if name == "DIGITMAP":
         return op_digitmap(op, world, ctx)
+    if name == "OWNEDIT":
+        return op_ownedit(op, world, ctx)
     raise HarnessError("unknown op %r" % name)
 
 
@@ -335,6 +338,37 @@ def op_new(op, world, ctx):
         store.put(name, "bits", numpy.array([int(c) for c in op["bits"]], dtype=int))
     elif kind == "strand":
         store.put(name, "strand", op["s"])
+    elif kind == "pair-adopt":
+        # the trimmer takes over an object the library handed back earlier (no copy): either a latter map (the matching
+        # accessor is built by the simulator) or an accessor (the matching latter map is built by the simulator). The
+        # object is renamed, not aliased, so any *other* store object that changes later was reached through the library.
+        src = op["from"]
+        obj = store.objs.get(src)
+        k = store.meta.get(src, {}).get("k")
+        if obj is None or k is None or k > 3 or store.meta[src].get("pair"):
+            return {"out": {"kind": "skipped"}, "res": None}
+        try:
+            if store.kinds[src] == "lm":
+                rows = [[-1, -1, -1, -1] for _ in range(4 ** k)]
+                for v, succ in obj.items():
+                    for w in succ:
+                        rows[int(v)][int(w) % 4] = int(w)
+                acc, lm = numpy.array(rows, dtype=int), obj
+            else:
+                rows = obj.tolist()
+                acc, lm = obj, lm_from_rows(rows, order_seed=op.get("lm_order"))
+            ok = M.check_rows_shape(rows, k) and any(w >= 0 for r in rows for w in r)
+        except Exception:
+            ok = False
+        if not ok:
+            return {"out": {"kind": "skipped"}, "res": None}
+        for table in (store.objs, store.kinds, store.meta):
+            table.pop(src, None)
+        world.owned.discard(src)
+        store.put(name + ".acc", "acc", acc, k=k, graph=name, pair=name)
+        store.put(name + ".lm", "lm", lm, k=k, graph=name, pair=name)
+        world.pairs[name] = {"arcs": set(M.arcs(rows)), "k": k, "removed": 0, "dead": False}
+        ctx.stats.inc("probes", "pair-adopted-" + ("lm" if lm is obj else "acc"))
     elif kind == "pair":
         src = op["from"]
         if src + ".acc" not in store.objs:
@@ -349,6 +383,33 @@ def op_new(op, world, ctx):
     else:
         raise HarnessError("NEW kind %r" % kind)
     return {"out": {"kind": "sim"}, "res": None}
+
+
+def op_ownedit(op, world, ctx):
+    """The owner of an object the library handed back edits it in place (it is theirs). Nothing is asserted here; later
+    calls must still equal their fresh-process evaluation, i.e. the library must not have kept a reference."""
+    import random as _random
+    store, name = world.store, op["name"]
+    obj = store.objs.get(name)
+    rng = _random.Random(op.get("how", 0))
+    kind = store.kinds.get(name)
+    done = False
+    if isinstance(obj, numpy.ndarray) and obj.size and obj.flags.writeable:
+        if kind == "table" and obj.ndim == 2 and obj.shape[1] == 4:
+            r = rng.randrange(obj.shape[0])
+            i, j = rng.sample(range(4), 2)
+            obj[r, i], obj[r, j] = obj[r, j], obj[r, i]          # still a permutation table
+            done = True
+        elif kind == "bits" and obj.ndim == 1:
+            i = rng.randrange(len(obj))
+            obj[i] = 1 - obj[i]
+            done = True
+        elif kind == "mask" and obj.ndim == 1:
+            i = rng.randrange(len(obj))
+            obj[i] = not obj[i] if obj.dtype == bool else 1 - obj[i]
+            done = True
+    ctx.stats.inc("faults", "OWNEDIT:" + str(kind) if done else "OWNEDIT:skipped")
+    return {"out": {"kind": "sim", "edited": done}, "res": _digest(obj) if done else None}
 
 
 def op_rng(op, world, ctx):
@@ -377,6 +438,9 @@ def store_results(op, world, out):
         except Exception:
             continue
         kind, name = spec["kind"], spec["name"]
+        if spec.get("k", 0) and spec["k"] > 3:
+            continue          # large results are not kept (the call itself was the point)
+        before_names = set(store.objs)
         if kind == "graph":
             if isinstance(item, numpy.ndarray) and item.ndim == 2 and item.shape[1] == 4:
                 k = spec["k"]
@@ -399,6 +463,9 @@ def store_results(op, world, out):
         elif kind == "bits":
             if isinstance(item, numpy.ndarray):
                 store.put(name, "bits", item)
+        for added in set(store.objs) - before_names:
+            if not added.endswith(".lm") or kind == "lm":
+                world.owned.add(added)
 
 
 def op_call(op, world, ctx):
